@@ -30,9 +30,11 @@ Inductive cb :=
 
 Inductive tstate := TNew | TUp | TClosing | TGone | TOrphan.
 
+Inductive sr_result := RFut (f : nat) | RRaise (e : exn).
+
 Inductive pc :=
 | PcStart | PcLockWait (w : nat) | PcConnWait (t : nat) | PcConnHang | PcAwait (f : nat)
-| PcCloseLockWait (w : nat) (o : outcome) | PcCloseStart | PcCloseOnlyWait (w : nat) | PcDone.
+| PcCloseLockWait (w : nat) (r : sr_result) | PcCloseStart | PcCloseOnlyWait (w : nat) | PcDone.
 
 Record task := mkTask { t_pc : pc; t_depth : nat; t_wf : bool; t_cancelled : bool }.
 #[export] Instance eta_task : Settable _ := settable! mkTask <t_pc; t_depth; t_wf; t_cancelled>.
@@ -55,13 +57,15 @@ Record st := mkSt {
   s_tasks : list (nat * task);
   s_conns : list conn_outcome; s_sends : list bool;   (* oracles: outcome of the next endpoint creations / sendto calls *)
   s_owner : option nat;             (* ghost: task that completed lock.acquire() and has not released *)
+  s_accepted : list tok;            (* ghost: data on which the validator answered 'accept' *)
+  s_nsend : nat;                    (* ghost: transmissions since the last EvCall *)
 }.
 #[export] Instance eta_st : Settable _ := settable! mkSt
   <s_kind; s_ka; s_retries; s_transport; s_retry; s_timer; s_fut; s_cmd; s_partial; s_lock; s_haslock; s_lockloop;
-   s_waiters; s_nextw; s_loop; s_ready; s_handles; s_nexth; s_futs; s_tr; s_sent; s_tasks; s_conns; s_sends; s_owner>.
+   s_waiters; s_nextw; s_loop; s_ready; s_handles; s_nexth; s_futs; s_tr; s_sent; s_tasks; s_conns; s_sends; s_owner; s_accepted; s_nsend>.
 
 Definition init (k : kind) (ka : bool) (retries : nat) : st :=
-  mkSt k ka retries None 0 None None false None false false 0 [] 0 0 [] [] 0 [] [] [] [] [] [] None.
+  mkSt k ka retries None 0 None None false None false false 0 [] 0 0 [] [] 0 [] [] [] [] [] [] None [] 0.
 
 (* ---------------------------------------------------------------- small helpers *)
 Fixpoint set_nth {A} (n : nat) (v : A) (l : list A) : list A :=
@@ -152,8 +156,6 @@ Definition classify (e : exn) : outcome :=
   | XMaxRetries => OMaxRetries
   end.
 
-Inductive sr_result := RFut (f : nat) | RRaise (e : exn).
-
 (* UdpInverterProtocol.error_received / TcpInverterProtocol.error_received *)
 Definition error_received (s : st) : st * list action :=
   match s_fut s with
@@ -163,11 +165,14 @@ Definition error_received (s : st) : st * list action :=
 
 (* ---------------------------------------------------------------- the coroutines *)
 (* execute(): after send_request returned / raised: outcome, then `finally: _retry = 0; if not keep_alive: await close()` *)
+Definition outcome_of (s : st) (r : sr_result) : outcome :=
+  match r with
+  | RFut f => match fstat_of s f with
+              | FResult t => OResp t | FExc e => classify e | FCancelled => OFailed | FPending => OOther XCancelled end
+  | RRaise e => classify e end.
+
 Definition exec_finish (s : st) (k : nat) (r : sr_result) : st * list action :=
-  let o := match r with
-           | RFut f => match fstat_of s f with
-                       | FResult t => OResp t | FExc e => classify e | FCancelled => OFailed | FPending => OOther XCancelled end
-           | RRaise e => classify e end in
+  let o := outcome_of s r in
   let s := s <| s_retry := 0 |> in
   if s_ka s then (set_pc s k PcDone, [ADone k o])
   else match s_kind s with
@@ -177,7 +182,7 @@ Definition exec_finish (s : st) (k : nat) (r : sr_result) : st * list action :=
            if negb (s_lock s) && match s_waiters s with [] => true | _ => false end
            then (set_pc (lock_release (close_transport (s <| s_lock := true |> <| s_owner := Some k |>))) k PcDone, [ADone k o])
            else let w := s_nextw s in
-                (set_pc (s <| s_waiters := s_waiters s ++ [(w, false)] |> <| s_nextw := S w |>) k (PcCloseLockWait w o), [])
+                (set_pc (s <| s_waiters := s_waiters s ++ [(w, false)] |> <| s_nextw := S w |>) k (PcCloseLockWait w r), [])
        end.
 
 (* the `finally` clauses of the (depth + 1) nested send_request frames, innermost first *)
@@ -202,7 +207,7 @@ Definition max_retries (s : st) : st * nat :=
 Definition do_send (s : st) (k : nat) (depth : nat) (t : nat) : st * list action * option sr_result :=
   let f := length (s_futs s) in
   let s := s <| s_futs := s_futs s ++ [FPending] |> <| s_fut := Some f |> <| s_cmd := true |> <| s_partial := None |> in
-  let s := s <| s_sent := t :: s_sent s |> in
+  let s := s <| s_sent := t :: s_sent s |> <| s_nsend := S (s_nsend s) |> in
   let '(ok, s) := match s_sends s with b :: tl => (b, s <| s_sends := tl |>) | [] => (true, s) end in
   let '(s, acts) := if ok then (s, [ASend t k f])
                     else match s_kind s with
@@ -317,7 +322,9 @@ Definition task_step (s : st) (k : nat) : st * list action :=
           | FCancelled => sr_exception (sr_attempt (fuel_of s)) s k depth XCancelled
           | FExc e => sr_exception (sr_attempt (fuel_of s)) s k depth e
           end
-      | PcCloseLockWait w o =>
+      | PcCloseLockWait w r =>
+          (* the value was computed before the `finally`; completed futures never change, so reading it now is the same *)
+          let o := outcome_of s r in
           let s := s <| s_waiters := filter (fun p => negb (Nat.eqb (fst p) w)) (s_waiters s) |> <| s_lock := true |> <| s_owner := Some k |> in
           (set_pc (lock_release (close_transport s)) k PcDone, [ADone k o])
       | PcCloseStart =>
@@ -357,6 +364,7 @@ Definition received (s : st) (id len : nat) (v : verdict) : st * list action :=
     | None => ([id], len, s) end in
   match v with
   | VAccept =>
+      let s := s <| s_accepted := data :: s_accepted s |> in
       match s_fut s with
       | Some f => if pending s f then ((complete s f (FResult data)) <| s_retry := 0 |>, []) else (s, [])
       | None => (s, [ALoopExc]) end
@@ -448,7 +456,7 @@ Definition step (s : st) (e : event) : option (st * list action) :=
                | _, _ => None end
   | EvFatal t => match tstate_of s t, s_kind s with TUp, TCP => Some (push s (CbFatal t), []) | _, _ => None end
   | EvCall k => match get_task k (s_tasks s) with
-                | None => Some (push (s <| s_tasks := s_tasks s ++ [(k, mkTask PcStart 0 false false)] |>) (CbTask k), [])
+                | None => Some (push (s <| s_tasks := s_tasks s ++ [(k, mkTask PcStart 0 false false)] |> <| s_nsend := 0 |>) (CbTask k), [])
                 | Some _ => None end
   | EvCloseCall k => match get_task k (s_tasks s) with
                      | None => Some (push (s <| s_tasks := s_tasks s ++ [(k, mkTask PcCloseStart 0 false false)] |>) (CbTask k), [])
